@@ -300,10 +300,14 @@ class AsyncTLSStreamTransport(AsyncStreamTransport):
                 self._write_bio.write_eof()
                 raise
             else:
-                # Flush any pending writes first
-                async with self.__transport_send_lock:
-                    if self._write_bio.pending:
-                        await self._transport.send_all(self._write_bio.read())
+                # Flush any pending writes first.
+                # NOTE: Not after a read. The data has already been taken out of the SSL object: a cancellation
+                #       while waiting for the send lock or for send_all() would lose it.
+                #       What is pending (if any) is flushed by the next operation.
+                if ssl_object_method != self._ssl_object.read:
+                    async with self.__transport_send_lock:
+                        if self._write_bio.pending:
+                            await self._transport.send_all(self._write_bio.read())
 
                 return result
 
